@@ -12,6 +12,9 @@ pub mod c04;
 pub mod c05;
 pub mod c07;
 pub mod c08;
+pub mod c09;
+pub mod c10;
+pub mod c13;
 pub mod c18;
 
 pub struct Ctx<'a> {
@@ -123,6 +126,7 @@ pub type CustomRun = fn(bool, u64, Option<String>) -> Report;
 pub fn custom_by_id(id: &str) -> Option<CustomRun> {
     match id {
         "C08" => Some(c08::run),
+        "C13" => Some(c13::run),
         "C18" => Some(c18::run),
         _ => None,
     }
@@ -134,6 +138,8 @@ pub fn by_id(id: &str) -> Option<Box<dyn DetectProp>> {
         "C04" => Some(Box::new(c04::C04)),
         "C05" => Some(Box::new(c05::C05)),
         "C07" => Some(Box::new(c07::C07)),
+        "C09" => Some(Box::new(c09::C09)),
+        "C10" => Some(Box::new(c10::C10)),
         _ => None,
     }
 }
